@@ -35,7 +35,7 @@ def run(run):
     if run.tier == "quick":
         args = ["-family", "crash", "-mode", "quick", "-n", "40", "-j", "8", "-seed", str(run.seed), "-detail", det]
     else:
-        args = ["-family", "crash", "-mode", "full", "-n", "1500", "-j", str(min(12, C.NPROC)), "-seed", str(run.seed), "-detail", det]
+        args = ["-family", "crash", "-mode", "full", "-n", "15000", "-j", str(min(12, C.NPROC)), "-seed", str(run.seed), "-detail", det]
     rc, lines = H.harness(args, timeout=3000)
     details = {}
     if os.path.exists(det):
